@@ -106,7 +106,7 @@ class COOData:
         """Return a dense numpy array."""
         if len(self.shape) == 0:
             # the elemental values of a functional: their sum
-            return np.sum(self.data, axis=0)
+            return np.asarray(np.sum(self.data, axis=0))
         if len(self.shape) == 1:
             return coo_matrix(
                 (self.data, (self.indices[0], np.zeros_like(self.indices[0]))),
